@@ -425,6 +425,15 @@ def generate(repo):
     need('if blockoffset == self.drop_block_last { return false; } if self .syslinereader .drop_data(blockoffset) '
          '{ self.drop_block_last = blockoffset; return true; } false' in flat(dd),
          'syslogprocessor.rs::drop_data left the expected shape')
+    # the skip compares with `drop_block_last`, which `SyslogProcessor::new` initialises with a literal: a target equal to
+    # that initial value is skipped although no drop at it has happened yet
+    mi = re.findall(r'\bdrop_block_last\s*:\s*(\d+)\s*,', sp)
+    need(len(mi) == 1, 'syslogprocessor.rs: expected exactly one literal initialiser `drop_block_last: <n>,`')
+    need(len(re.findall(r'self\.drop_block_last\s*=', sp)) == 1, 'syslogprocessor.rs: drop_block_last is assigned somewhere else than in drop_data')
+    L.append('/-- `SyslogProcessor::drop_data` returns at once `if blockoffset == self.drop_block_last`; `drop_block_last` starts at this value')
+    L.append('(`SyslogProcessor::new`) and is assigned only after a `syslinereader.drop_data(blockoffset)` that returned `true`: a drop whose target')
+    L.append('equals the initial value never runs -/')
+    L.append(f'def DROP_BLOCK_LAST_INIT : Nat := {int(mi[0])}')
 
     # ---- syslinereader.drop_data: which syslines; drop_sysline removes before try_unwrap
     _, sdd, _ = find_fn(sr, 'drop_data')
